@@ -1,7 +1,7 @@
 (* Trace checkers for the announcer / subscriber / discovery-client properties
    C08, C10, C11, C12, C13, C14, C15: each reads the property from the timed inputs of the scenario
    and judges the decoded transmissions of a trace. *)
-From PS Require Import Lib.Base Generated.Consts Model.SdTypes Model.Config Model.Session
+From PS Require Import Lib.Base Lib.Struct Generated.Consts Model.SdTypes Model.Config Model.Session Model.SdCodec
   Model.StackTypes Model.Stack Model.StackIO Spec.TraceSpec Spec.StoreSpec Spec.C08Spec.
 
 Definition dest_eq := dest_eqb.
@@ -34,15 +34,27 @@ Fixpoint pairwise_ok (collect : N) (q s : list sent_t) : N :=
 
 Definition dests_of (l : list sent_t) : list dest := dedup dest_eq (map st_dest l).
 
+(* an entry that cannot be encoded: its whole batch raises in send_sd and is lost (outside the property's domain) *)
+Definition unencodable (e : sdentry) : bool := match sd_datagram [e] true 1 with Ok _ => false | Err _ => true end.
+
 Definition check_C15 (sc : scenario) (tr : trace) : list N :=
   match sent_entries tr with
   | None => [98]
   | Some sent =>
       let q := queued_of (inputs_of sc) in
       let collect := t_collect (sc_cfg sc) in
-      let per_dest := map (fun d => pairwise_ok collect (filter (fun x => dest_eq (st_dest x) d) q)
-                                                (filter (fun x => dest_eq (st_dest x) d) sent))
-                          (dests_of (q ++ sent)) in
+      let per_dest := map (fun d =>
+          let qd := filter (fun x => dest_eq (st_dest x) d) q in
+          let sd := filter (fun x => dest_eq (st_dest x) d) sent in
+          match filter (fun x => unencodable (st_entry x)) qd with
+          | [] => pairwise_ok collect qd sd
+          | bad =>
+              (* judged: what is queued for d after the last unencodable entry's window; if something was queued inside
+                 that window it may or may not share the lost batch: not judged *)
+              let tb := fold_left (fun acc x => N.max acc (st_time x)) bad 0 in
+              if existsb (fun x => (tb <? st_time x) && (st_time x <=? tb + collect)) qd then 0
+              else pairwise_ok collect (filter (fun x => tb + collect <? st_time x) qd) (filter (fun x => tb + collect <? st_time x) sd)
+          end) (dests_of (q ++ sent)) in
       let zero :=
         if collect =? 0 then
           (* every datagram carries exactly one entry *)
